@@ -15,11 +15,11 @@ def describe(tier):
                 'a one-bit change of the key is such another key; declared-length variants: message_length/cipher_length in '
                 '{unlimited, exact, off by one / off by one block} must accept/raise ValueError accordingly; every wrong key length 0..40 must '
                 'raise ValueError in Encrypt and Decrypt; every key_length 0..40 outside {16,24,32} and every cipher_length that is not a '
-                'multiple of 16 must be refused by the constructor. non-trivial = message length > 0.'
+                'multiple of 16 must be refused by the constructor; 600 (5000) encryptions of one message by ONE cipher object have pairwise distinct IVs and ciphertexts. non-trivial = message length > 0.'
                 % (hi, '' if tier == 'quick' else ' and 1000, 4095, 4096, 4097, 65535, 65536'),
         'bounds': 'message lengths 0..%d exhaustive' % hi,
         'assumptions': ['wrong-key rejection is decided for DRBG keys only (chance equality 2^-128)'],
-        'must_be_nonzero': ['roundtrip', 'block-multiple-message', 'empty-message', 'declared-mismatch-refused', 'wrong-key-length-refused'],
+        'must_be_nonzero': ['roundtrip', 'block-multiple-message', 'empty-message', 'declared-mismatch-refused', 'wrong-key-length-refused', 'long-runs'],
     }
 
 
@@ -33,6 +33,8 @@ def units(tier, seed):
         if tier != 'quick':
             us.append(('enc-long/%d' % kl, {'kind': 'enc', 'kl': kl, 'ki': 0, 'lens': [1000, 4095, 4096, 4097, 65535, 65536]}))
         us.append(('contracts/%d' % kl, {'kind': 'contracts', 'kl': kl}))
+    for kl in (16, 24, 32):
+        us.append(('many/%d' % kl, {'kind': 'many', 'kl': kl, 'count': 600 if tier == 'quick' else 5000}))
     us.append(('ctor', {'kind': 'ctor'}))
     return us
 
@@ -200,8 +202,42 @@ def run_ctor(r, seed):
     r.sample({'ctor': 'key_length 0..40, cipher_length 1..99'})
 
 
+def run_many(r, seed, kl, count):
+    """fresh randomness over a long run of ONE cipher object: all IVs and all ciphertexts of `count` encryptions of the same
+    message under the same key are pairwise distinct (a recycled IV batch or counter shows up as a repeat)"""
+    A = impl()
+    a = A(key_length=kl)
+    g = det.rng(seed, 'c14-many', kl)
+    det.seed_case(seed, PROPERTY, 'many', kl)
+    key = g.randbytes(kl)
+    for m in (b'', b'same message', g.randbytes(48)):
+        seen_iv, seen_ct = {}, {}
+        for i in range(count):
+            c = a.Encrypt(key, m)
+            r['transitions'] += 1
+            if c[:16] in seen_iv:
+                r.v(PROPERTY, 'AES-CBC', 'randomness', 'iv-repeats-within-%d-encryptions' % count, {'key_length': kl, 'message_length': len(m), 'encryption': i,
+                    'first_use': seen_iv[c[:16]]}, 'pairwise distinct IVs', 'IV of encryption %d reused at %d' % (seen_iv[c[:16]], i))
+                break
+            if c in seen_ct:
+                r.v(PROPERTY, 'AES-CBC', 'randomness', 'ciphertext-repeats', {'key_length': kl, 'message_length': len(m), 'encryption': i}, 'pairwise distinct', 'repeat')
+                break
+            seen_iv[c[:16]] = i
+            seen_ct[c] = i
+        r['evaluations'] += 1
+        r['states'] += 1
+        r['nontrivial'] += 1
+        r.count('long-runs')
+    r.outcome('many-ok')
+    r.sample({'key_length': kl, 'encryptions_of_one_message_by_one_object': count})
+
+
 def run_unit(p, tier, seed):
     r = core.Result()
+    if p['kind'] == 'many':
+        run_many(r, seed, p['kl'], p['count'])
+        det.restore()
+        return r
     if p['kind'] == 'enc':
         run_enc(r, seed, p['kl'], p['ki'], p['lens'])
     elif p['kind'] == 'contracts':
@@ -216,6 +252,8 @@ def replay(case, seed):
     r = core.Result()
     if 'message_length' in case:
         run_enc(r, seed, case['key_length'], case['key_index'], [case['message_length']])
+    elif 'encryption' in case:
+        run_many(r, seed, case['key_length'], 5000)
     elif 'actual_key_length' in case:
         run_contracts(r, seed, case['key_length'])
     else:
